@@ -79,6 +79,14 @@ def run(ctx):
                 rows = tables.rows_present(exprs, a)
                 table[rows] = traj[len(rows)]
             null = traj[0]
+        scale = Fraction(1)
+        if it % 5 == 4:
+            # the same game at a tiny magnitude (exact power of two): the band is RELATIVE to the mean score, so nothing may change - an absolute floor in the
+            # band test (1e-8, say) would count every step as in-band here
+            scale = Fraction(1, 2 ** rng.choice([30, 32, 36]))
+            mean = mean * scale
+            table = {k: (v * scale if isinstance(v, Fraction) else v) for k, v in table.items()}
+            null = null * scale
         T = rng.choice([0, 1, 1, 2, 3])
         iterations = rng.randint(1, 8)
         timeout = rng.choice([0, 5, 5, 5])
@@ -110,7 +118,7 @@ def run(ctx):
         # the permutations that WOULD be drawn: the model/spec only need those actually drawn
         want, m, cuts = simulate(n_units, exprs, table, null, perms, mean, tol, T, timeout, clock)
         nontriv = (timeout > 0 and m < iterations) or cuts > 0
-        ctx.case(case, nontrivial=nontriv, sample=(case if n_units <= 3 and iterations <= 3 else None), T=T, timeout=timeout, expired=(timeout > 0 and m < iterations), cut=(cuts > 0))
+        ctx.case(case, nontrivial=nontriv, sample=(case if n_units <= 3 and iterations <= 3 else None), T=T, timeout=timeout, expired=(timeout > 0 and m < iterations), cut=(cuts > 0), tiny_scale=(scale != 1))
         ctx.maxi(units=n_units, iterations=iterations)
         ans = ctx.model({"op": "mc", "prov": {"nUnits": n_units, "exprs": exprs}, "table": tables.table_json(table), "null": str(null), "mean": str(mean),
                          "timeout": str(timeout), "tolerance": str(tol), "truncSteps": T, "perms": perms, "clock": [str(c) for c in clock]})
@@ -121,7 +129,7 @@ def run(ctx):
             ctx.mismatch("fewer permutations were completed than the budget rule allows (stop after the first iteration whose clock reading exceeds the timeout)",
                          case, impl=len(perms), spec=m)
             continue
-        if not ctx.vec_close(res, want, 50):
+        if not ctx.vec_close([x / float(scale) for x in res], [w / scale for w in want], 50):
             ctx.mismatch("scores are not the average over the completed permutations (with the truncation rule)", case, impl=res, model=ans, spec=[str(x) for x in want])
             continue
         # the permutation walk translated from this tree's source (truncation rule included), averaged over the permutations that were completed
